@@ -60,7 +60,7 @@ def run_(tier):
     V = vlib.Verdict("C10")
     mc = proto.model_check("ACV_concurrent", "ACV concurrent model (2 procs, every interleaving of the stage actions)")
     neg = proto.negative_control("SplitGenvar", ["NamesDistinctPerCompilation", "NamesGloballyDistinct"])
-    nsched = 4 if tier == "quick" else 48
+    nsched = 4 if tier == "quick" else 160
     rounds = 2 if tier == "quick" else 6
     scheds, sim = schedules(nsched, vlib.seed())
     cases = []
